@@ -28,12 +28,14 @@ CHECKS = {
               "and the multiply-shift cascade returns their decimal value (all 10^8 blocks at once); parse_int64_from_buffer returns "
               "`some n` exactly when the value of the digit string (any length, radix 2..36, either sign, underscores with the "
               "experimental flag) lies in the signed 64-bit range and n is that value; ratio_gcd equals the mathematical gcd for all "
-              "int64 operands including INT64_MIN. Tied to the code by direct calls of the static helpers (2^63 neighbourhood for every "
+              "int64 operands including INT64_MIN; at reader level edn_read_number consumes exactly a big-decimal / hex / octal / NrD radix / ratio token "
+              "followed by a terminator and returns the payload its class denotes (ratios in lowest terms, integer when the denominator divides, big forms "
+              "only when an operand does not fit). Tied to the code by direct calls of the static helpers (2^63 neighbourhood for every "
               "radix, 1..40 digits, 20k/1M random 8-digit blocks, every non-digit byte in every lane, gcd operands) and by whole literals "
               "(decimal, N/M suffixes, radix/hex/octal, ratios, underscores) through reader and model, with Python big integers and "
               "Fraction as the oracle."),
         design_ref="DESIGN.md section 6, C04",
-        note=NOTE_COMMON + " The reader-level statement (which branch of edn_read_number produces which payload) is covered by the correspondence run, not yet by a theorem.",
+        note=NOTE_COMMON + " Reader-level theorems cover decimal integers (C03), big decimals, and with the Clojure flag hex, octal, radix and ratio tokens (reads_hex ... reads_ratio); underscore spellings of the experimental flag at reader level are covered by the correspondence run only.",
         technique="Lean 4 proof (lane-wise SWAR arithmetic, loop invariants, Stein gcd) + correspondence check + big-integer oracle",
     ),
     "C07": dict(
@@ -111,7 +113,11 @@ CHECKS = {
               "registry and the external-type list answer lookups exactly like the abstract map `most recent registration or none`; the "
               "reader's step for a tagged element is characterised (no registry or discard mode: generic tagged value and no handler call; "
               "registered: exactly one call appended after the inner value's calls, handler failure is the result; unregistered: the selected "
-              "default). Tied to the code by all operation sequences up to length 4 (5 thorough) over 4 tags including a bucket-colliding "
+              "default). Whole documents (configurations without the Clojure flag): reading with a registry of well-behaved handlers "
+              "equals the declarative dispatch (Edn.Spec.dispatchV: handlers bottom-up in source order, one logged call each with the operand's range, "
+              "never inside discards, modes keep / unwrap / reject) applied to the tree the same input reads to without a registry - same value up to "
+              "cache cells, same call log, or the same error code and range with the calls made until then (handler failure, unknown tag in error mode, "
+              "results colliding in a set or as map keys); proved as a simulation between the two runs by induction on fuel. Tied to the code by all operation sequences up to length 4 (5 thorough) over 4 tags including a bucket-colliding "
               "pair x 2 handlers on both tables, and by generated tagged documents under 3 default modes x {registry, none}, with discards, "
               "checked against an independent Python re-implementation of dispatch on the passthrough tree (call log in post-order)."),
         design_ref="DESIGN.md section 6, C14",
@@ -283,7 +289,7 @@ CHECKS = {
         text=("Lean theorems (Edn.Properties.C05), with round-to-nearest-even defined in exact natural-number arithmetic: every entry of the "
               "power-of-ten table extracted from the compiled source is exactly 10^k; rounding depends only on the value n/d; the fast path "
               "(mantissa <= 2^53-1, |exponent| <= 22) returns the double nearest to mant*10^e with a single rounding for multiplication and "
-              "division alike; the clamp used for astronomically large exponents changes no result. The slow path is strtod, assumed correctly "
+              "division alike; the clamp used for astronomically large exponents changes no result; at reader level a float token followed by a terminator is consumed exactly and read as rne of its decimal value in every configuration. The slow path is strtod, assumed correctly "
               "rounded. Tied to the code by bit patterns from parse_double_from_buffer and whole reads: every (1..19 digits) x (exponent -26..26) "
               "cell with and without a decimal point, exact half-way cases, subnormal/overflow thresholds, shortest round-trip renderings of "
               "random doubles, literals of 20..2000 significant characters, random shapes - against Python's correctly rounded float()."),
